@@ -6,7 +6,7 @@
      - every refusal is justified by a clause                            (RefusalsJustified)
      - the documented reference cleaner stays within the permission      (ReferenceIsSafe)
    i.e. the clause list of the property and the per-file permission are the same statement.      *)
-EXTENDS Pclean, TLC
+EXTENDS Pclean_Export      \* (its ASSUME writes the scenario file when IOEnv.OUT is set: one TLC run does both)
 CONSTANTS AgeVals, SizeVals, UseFilters    \* e.g. {1, 3}, {1, 3} against thresholds T = S = 2
 FNames == {"f1", "f2"}
 Subsets == SUBSET FNames
